@@ -1,6 +1,9 @@
 package obialign
 
-import "git.metabarcoding.org/obitools/obitools4/obitools4/pkg/obiseq"
+import (
+	"git.metabarcoding.org/obitools/obitools4/obitools4/pkg/obikmer"
+	"git.metabarcoding.org/obitools/obitools4/obitools4/pkg/obiseq"
+)
 
 // C08: paired-end alignment in exact mode.  Bases are symbolic over acgt, qualities symbolic in {10, 20, 40}.
 
@@ -167,7 +170,24 @@ func VerifC08_Fast(la, lb, delta int) {
 	}
 	a, b := vBytes(la, "acgt"), vBytes(lb, "acgt")
 	qa, qb := vBytes(la, "\x0a\x14\x28"), vBytes(lb, "\x0a\x14\x28")
-	vAssume(count >= 1 || shift == 0)
+	if !vSymbolic() {
+		// the heuristic cannot be told what to answer in a native run: reads on which the real heuristic
+		// reports this offset are built instead, and the real PEAlign is checked on them
+		vMaterialiseFast(la, lb, delta, shift, qa, qb)
+		return
+	}
+	// the contract of the heuristic: no shared 4-mer -> (0, 0); else at most one hit per window of the overlap
+	over := la - shift
+	if shift <= 0 {
+		over = lb + shift
+	}
+	if over > la {
+		over = la
+	}
+	if over > lb {
+		over = lb
+	}
+	vAssume((count == 0 && shift == 0) || (count >= 1 && count <= over-3))
 	if !_InitializedDnaScore {
 		_InitDNAScoreMatrix()
 	}
@@ -198,4 +218,87 @@ func VerifC08_Fast(la, lb, delta int) {
 	}
 	vAssert(wellFormed && i == la && j == lb, "pe-fast-path-consumes-both-reads-exactly")
 	vReach("end")
+}
+
+func vPathConsumes(path []int, la, lb int) bool {
+	i, j := 0, 0
+	ok := len(path)%2 == 0
+	for p := 0; p+1 < len(path); p += 2 {
+		step, diag := path[p], path[p+1]
+		ok = ok && diag >= 0
+		if step < 0 {
+			i -= step
+		} else {
+			j += step
+		}
+		i += diag
+		j += diag
+	}
+	return ok && i == la && j == lb
+}
+
+// native only: reads of la / lb bases on which the real 4-mer heuristic reports `shift` (B is A moved by shift,
+// completed with random bases, with and without a substitution in the overlap); the real PEAlign in fast mode
+// must give a path that consumes both
+func vMaterialiseFast(la, lb, delta, shift int, qa, qb []byte) {
+	alphabet := []byte("acgt")
+	rnd := uint64(1442695040888963407)
+	next := func() uint64 {
+		rnd ^= rnd << 13
+		rnd ^= rnd >> 7
+		rnd ^= rnd << 17
+		return rnd
+	}
+	if !_InitializedDnaScore {
+		_InitDNAScoreMatrix()
+	}
+	for try := 0; try < 3000; try++ {
+		a := make([]byte, la)
+		for i := range a {
+			a[i] = alphabet[next()%4]
+		}
+		b := make([]byte, lb)
+		for j := range b {
+			if i := j + shift; i >= 0 && i < la {
+				b[j] = a[i]
+			} else {
+				b[j] = alphabet[next()%4]
+			}
+		}
+		if try%2 == 1 { // one substitution somewhere in B
+			p := int(next() % uint64(lb))
+			b[p] = alphabet[(vIdx(alphabet, b[p])+1+int(next()%3))%4]
+		}
+		seqA := vMakeRead("a", append([]byte{}, a...), append([]byte{}, qa...))
+		seqB := vMakeRead("b", append([]byte{}, b...), append([]byte{}, qb...))
+		arena := MakePEAlignArena(la, lb)
+		shifts := make(map[int]int)
+		index := obikmer.Index4mer(seqA, &arena.pointer.fastIndex, &arena.pointer.fastBuffer)
+		got, _, _ := obikmer.FastShiftFourMer(index, &shifts, seqA.Len(), seqB, false, nil)
+		if got != shift {
+			continue
+		}
+		var path []int
+		k := vCatch(func() {
+			_, _, path, _, _, _ = PEAlign(seqA, seqB, 2.0, 1.0, true, delta, false, arena, &shifts)
+		})
+		if k != 0 {
+			vAssert(false, "pe-fast-no-panic")
+			return
+		}
+		if !vPathConsumes(path, la, lb) {
+			vObserve("materialised-at-try", try)
+			vAssert(false, "pe-fast-path-consumes-both-reads-exactly")
+			return
+		}
+	}
+}
+
+func vIdx(al []byte, c byte) int {
+	for i, x := range al {
+		if x == c {
+			return i
+		}
+	}
+	return 0
 }
